@@ -6,6 +6,7 @@ pub mod c04;
 pub mod c05;
 pub mod c06;
 pub mod c13;
+pub mod c19;
 
 use crate::explore::{Limits, Violation};
 use crate::world::{Outcome, Scenario};
@@ -30,6 +31,7 @@ pub fn sim_check(id: &str, tier: &str, _seed: i64) -> Option<SimCheck> {
         "C05" => Some(c05::build(tier)),
         "C06" => Some(c06::build(tier)),
         "C13" => Some(c13::build(tier)),
+        "C19" => Some(c19::build(tier)),
         _ => None,
     }
 }
@@ -40,6 +42,7 @@ pub fn other_parts(id: &str, tier: &str, _seed: i64) -> Vec<crate::report::Part>
         "C05" => vec![crate::enumc::c05::run(tier)],
         "C06" => vec![crate::enumc::c06::run(tier)],
         "C13" => vec![crate::enumc::c13::run(tier)],
+        "C19" => vec![crate::enumc::c19::run(tier)],
         _ => vec![],
     }
 }
